@@ -67,6 +67,8 @@ pub struct Fx<'a> {
     pub inlining: Vec<String>,
     /// local variables bound to a closure (`let f = |x| ..;`), callable as `f(a)`
     pub local_closures: HashSet<String>,
+    /// local variables bound to a parser (`let body = |input: &mut &str| { .. };`, `let prefix = (opt(..), space0);`)
+    pub local_parsers: HashSet<String>,
     /// helper parsers that were read in place
     pub inlined: BTreeSet<String>,
     pub mode: Mode,
@@ -210,7 +212,7 @@ fn render(lines: &[Line]) -> String {
 
 impl<'a> Fx<'a> {
     pub fn new(krate: &'a Crate, self_ty: Option<String>) -> Self {
-        Fx { krate, self_ty, var_ty: HashMap::new(), display: None, sites: vec![], calls: BTreeSet::new(), auto_helpers: BTreeSet::new(), inlining: vec![], local_closures: HashSet::new(), inlined: BTreeSet::new(), mode: Mode::Id, closure_refs: HashMap::new(), enclosing: String::new(), tmp: 0 }
+        Fx { krate, self_ty, var_ty: HashMap::new(), display: None, sites: vec![], calls: BTreeSet::new(), auto_helpers: BTreeSet::new(), inlining: vec![], local_closures: HashSet::new(), local_parsers: HashSet::new(), inlined: BTreeSet::new(), mode: Mode::Id, closure_refs: HashMap::new(), enclosing: String::new(), tmp: 0 }
     }
 
     fn site(&mut self, kind: &str, sp: proc_macro2::Span, text: String) {
@@ -518,6 +520,9 @@ impl<'a> Fx<'a> {
                     "space0" | "space1" | "digit1" | "eof" | "any" => return Ok(format!("Winnow.{}", n)),
                     _ => {}
                 }
+                if self.local_parsers.contains(n.as_str()) {
+                    return Ok(ident_name(n));
+                }
                 // nested function of the enclosing parser, then free functions
                 let nested = format!("{}::{}", self.enclosing, n);
                 for q in [nested, n.clone()] {
@@ -631,6 +636,12 @@ impl<'a> Fx<'a> {
                     },
                     ("preceded", 2) => Ok(format!("(Winnow.preceded {} {})", self.pexpr_atom(a[0])?, self.pexpr_atom(a[1])?)),
                     ("terminated", 2) => Ok(format!("(Winnow.terminated {} {})", self.pexpr_atom(a[0])?, self.pexpr_atom(a[1])?)),
+                    ("separated_pair", 3) => Ok(format!(
+                        "(Winnow.separatedPair {} {} {})",
+                        self.pexpr_atom(a[0])?,
+                        self.pexpr_atom(a[1])?,
+                        self.pexpr_atom(a[2])?
+                    )),
                     ("delimited", 3) => Ok(format!(
                         "(Winnow.delimited {} {} {})",
                         self.pexpr_atom(a[0])?,
@@ -828,6 +839,26 @@ impl<'a> Fx<'a> {
             out.extend(inner?);
             out.push(Line { ind: ind + 2, text: ")".into() });
             return Ok(out);
+        }
+        if self.mode == Mode::Parser && !mutable {
+            if let Pat::Ident(id) = pat {
+                let is_parser_value = match &*init.expr {
+                    Expr::Closure(c) => c.inputs.len() == 1 && closure_param_is_input(&c.inputs[0]),
+                    Expr::Tuple(t) => t.elems.len() >= 2 && t.elems.iter().all(|x| matches!(x, Expr::Call(_) | Expr::Path(_))),
+                    _ => false,
+                };
+                if is_parser_value {
+                    let pe = self.pexpr(&init.expr)?;
+                    self.local_parsers.insert(id.ident.to_string());
+                    let name = ident_name(&id.ident.to_string());
+                    if pe.starts_with("(do\n") {
+                        // a statement-style parser: the monad has to be named for the `do` block to elaborate
+                        let inner = &pe[1..pe.len() - 1];
+                        return Ok(vec![Line { ind, text: format!("let {} : Winnow.Parser _ := ({})", name, inner) }]);
+                    }
+                    return Ok(vec![Line { ind, text: format!("let {} := {}", name, pe) }]);
+                }
+            }
         }
         if let (Pat::Ident(id), Expr::Closure(_)) = (pat, &*init.expr) {
             if !mutable {
@@ -1181,6 +1212,15 @@ impl<'a> Fx<'a> {
                     }
                 }
                 Expr::Block(b) => return self.stmts(&b.block, ind, tail),
+                // `p.parse_next(&mut x).map_err(|err| ..)` as the value of the function: run the parser on the local
+                // string (advancing it), then map the error
+                Expr::MethodCall(m) if self.mode == Mode::Result && m.method == "map_err" && m.args.len() == 1 && is_local_parse_next(&m.receiver) => {
+                    let mut pre = vec![];
+                    let v = self.value(&m.receiver, ind, &mut pre)?;
+                    let f = self.expr_atom(&m.args[0])?;
+                    pre.push(Line { ind, text: format!("(Rust.map_err {} {})", v, f) });
+                    return Ok(pre);
+                }
                 _ => {}
             }
             return Ok(vec![Line { ind, text: self.result_value(e, false)? }]);
@@ -2118,6 +2158,18 @@ fn fmt_result(sig: &Signature) -> bool {
         }
         _ => false,
     }
+}
+
+/// `p.parse_next(&mut x)` with `x` a local variable
+fn is_local_parse_next(e: &Expr) -> bool {
+    if let Expr::MethodCall(m) = e {
+        if m.method == "parse_next" && m.args.len() == 1 {
+            if let Expr::Reference(r) = &m.args[0] {
+                return r.mutability.is_some() && matches!(&*r.expr, Expr::Path(p) if p.path.get_ident().is_some());
+            }
+        }
+    }
+    false
 }
 
 fn closure_param_is_input(p: &Pat) -> bool {
